@@ -184,7 +184,7 @@ class Socket:
         net = Net.cur
         self.kind = kind; self.inq = []; self.inflight = {}; self.last_arr = {}; self.subs = []; self.peers = []; self.addr = None
         self.closed = False; self.nsent = 0; self.owner = net.current; self.owner_name = net.current.name if net.current else 'main'
-        self.outq = []; self.hwm = 1000; self.sent = []; self.gone = False
+        self.outq = []; self.hwm = 1000; self.sent = []; self.gone = False; self.active_at = 0
         net.sockets.append(self)
 
     def setsockopt(self, k, v):
@@ -207,6 +207,9 @@ class Socket:
         a = norm(a); net = Net.cur; self.addr = a
         want = (PUB if self.kind == SUB else PULL, a)
         net.connected.setdefault(want, []).append(self)
+        cd = net.conn_delay_fn(self) if net.conn_delay_fn else 0
+        self.active_at = net.now + cd
+        if self.kind == PUSH and not (isinstance(cd, int) and cd == 0): net.at(self.active_at, self.flush)
         b = net.bound.get(want)
         if b is not None and not b.gone and not b.closed:
             b.peers.append(self); self.peers.append(b)
@@ -237,7 +240,7 @@ class Socket:
     def flush(self):
         """PUSH: messages queued while no live peer existed"""
         live = [p for p in self.peers if not p.gone and not p.closed]
-        if self.kind == PUSH and live:
+        if self.kind == PUSH and live and bool(Net.cur.now >= self.active_at):
             for m in self.outq: self._transmit(live[0], m)
             self.outq = []
 
@@ -249,10 +252,11 @@ class Socket:
         if self.kind == PUB:
             for s in live:
                 if not any(msg[0].startswith(p) for p in s.subs): continue
+                if bool(net.now < s.active_at): continue          # subscriber's connection not established yet: the publish is missed (slow joiner)
                 net.stats['sent'] += 1
                 self._transmit(s, msg)
         else:
-            if not live:
+            if not live or bool(net.now < self.active_at):
                 if len(self.outq) >= self.hwm:
                     if flags == DONTWAIT: raise Again()
                     raise HarnessError('blocking PUSH send at high water mark')
